@@ -134,14 +134,14 @@ prop('C16', SERVER_TOO, title='No peer-supplied input can crash an endpoint',
      level_note='Malformed frames are the codec\'s (dependency). humantime renders every timestamp before year 10000 (its documented contract) is assumed.',
      not_covered='malformed frames (codec)')
 prop('C18', SERVER_TOO, title='Trace context follows the request, and only that request',
-     verus=['client', 'trace_ctx'], native=['server_context_bounded', 'client_wire_bounded'], kani=['k6_otel_id_conversions_round_trip'], technique=TECH_V + '; plus a bounded replay search (boundary-value grid through the public API) as a source of concrete failing inputs (never counted as proved)',
+     verus=['client', 'trace_ctx'], native=['server_context_bounded', 'client_wire_bounded', 'cascade_bounded'], kani=['k6_otel_id_conversions_round_trip'], technique=TECH_V + '; plus a bounded replay search (boundary-value grid through the public API) as a source of concrete failing inputs (never counted as proved)',
      assumptions=COMMON_V + ['A-otel', 'A-sink', 'A-rand'],
      level_text='Proof that the Request written carries exactly the context stored in the table under its id, and that the Cancel for an id carries the trace context stored for that id (same trace id, sampling and span id); contexts live in the entry of their own id (frame clauses), so concurrent requests cannot exchange them.',
      level_note='Child-context derivation (new_child, server start_request) is in K6/unit server when registered.',
      not_covered='OpenTelemetry bridge')
 
 prop('C04', NATIVE_SERVER, title='Servers stop cancelled work and cancellation cascades',
-     verus=['server', 'cancellations'], technique=TECH_V,
+     verus=['server', 'cancellations'], native=['cascade_bounded'], technique=TECH_V + '; plus bounded replay searches (server wire; a two-hop chain for the cascade clause) as a source of concrete failing inputs (never counted as proved)',
      assumptions=COMMON_V + ['A-abortable', 'A-delayqueue', 'A-sink', 'A-mpsc'],
      level_text='Proof that a Cancel message aborts exactly the handle stored for that id, untracks it and removes its timer, and changes nothing for an unknown id; that BaseChannel::start_send drops a response whose id is no longer tracked (nothing is transmitted after a cancel); that reading never produces effects other than aborts; that every poll of a channel polls its inbound side (control traffic is processed). The cascade step (an aborted handler drops its nested calls, whose guards cancel downstream) rests on A-abortable + the client guard contract.',
      level_note='Known finding F8 (throttler at its limit with the sink not ready does not poll the inner channel) is reported as KNOWN-FINDING.',
@@ -173,7 +173,7 @@ prop('C19', title='Request hooks run in order and short-circuit correctly',
 prop('C20', title='Load-balancing and retry stubs keep their dispatch promises',
      verus=['lb_fairness'],
      kani=['k5_cycle_next_is_counter_mod_len', 'k5_cycle_next_upto8', 'k5_round_robin_call_uses_next', 'k5_consistent_hash_valid_and_stable', 'k5_serve_as_stub_passes_through', 'k5_retry_attempts_numbered_and_last_result'],
-     native=['retry_bounded'],
+     native=['retry_bounded', 'round_robin_bounded'],
      technique=TECH_K + '; Retry::call: Kani harness bounded to 3 attempts (symbolic results/decisions/clock) plus a bounded native stand-in (exhaustive to 5 attempts)',
      assumptions=['A-verifiers', 'A-ids'],
      level_text='CBMC proof that State::next returns element (counter % len) and advances the atomic counter by exactly one for every counter value including the wrap (so concurrent calls get consecutive distinct counters); that ConsistentHash picks hash % len < len, never panics and is a function of the request hash only (symbolic hasher); that a Serve used as a Stub passes context, request and result through. Backend counts are enumerated (1..=4 / 1..=3): labelled bounded in that dimension.',
@@ -182,7 +182,7 @@ prop('C20', title='Load-balancing and retry stubs keep their dispatch promises',
      not_covered='Retry beyond 5 attempts; round-robin fairness across a wrap of the 64-bit call counter')
 
 prop('C13', title='Per-key channel limit is never exceeded nor over-applied',
-     verus=['channels'], native=['channels_bounded'], technique=TECH_V + '; Arc/Weak strong counts modelled by a threaded ghost world; plus a bounded replay search through the public API as a source of concrete failing inputs (never counted as proved)',
+     verus=['channels'], native=['channels_bounded', 'channels_exec_bounded'], technique=TECH_V + '; Arc/Weak strong counts modelled by a threaded ghost world; plus a bounded replay search through the public API as a source of concrete failing inputs (never counted as proved)',
      assumptions=COMMON_V + ['A-arc', 'A-mpsc'],
      level_text='Proof of a data-structure invariant over (key_counts, ghost world of live trackers): every tracker that still has a live yielded channel is the one recorded for its key and holds at most n channels; an entry is forgotten only when its tracker is dead. Every function of the filter (admission, close-notification processing incl. stale ones, the poll loop) preserves it; a lemma shows it is stable under channels being dropped by the environment at any time; admission is refused only if n channels of that key are alive at that moment.',
      level_note='Function-level atomicity w.r.t. channel drops inside increment_channels_for_key (between strong_count and upgrade) is assumed; key type instantiated with u64.',
